@@ -19,6 +19,8 @@
      "PeekSingleRead"    peek and the resync after detection use one Read call instead of io.ReadFull
      "DetectErrNeverEOF" a failed detection leaves a packet buffer of size 0 behind; no call ever
                          returns ErrNoMorePackets
+     "TruncatedFirstPacketIsError"  an input that ends inside its first packet is an error first, the end of the stream
+                         only from the next call on (auto-detection)
    With Dev = {} : SameAsFull (C08) and EndsInBoundedCalls / EOFAbsorbing (C03). *)
 EXTENDS Integers, Sequences, TLC
 CONSTANTS Sizes, Kinds, NPKS, EXTRAS, AUTOS, Short, Dev
@@ -56,10 +58,12 @@ Detect(cf, st) ==
                                          !.pos = IF cf.kind = "seek" THEN 0 ELSE IF cf.kind = "bufio" THEN st.pos ELSE st.pos + g + sync])
                : sync \in syncs(g) }
         \* detection failed; what was looked at is consumed whatever the reader kind (a bufio.Reader is advanced by Discard)
-        ELSE IF g = 0 /\ ~HasDev("DetectErrNeverEOF")
-        THEN { [r |-> EOFv, s |-> [st EXCEPT !.done = TRUE]] }                      \* nothing left at all: the end of the input
+        \* nothing left at all, or the input ends inside its first packet (a truncated final packet is the end of the stream, C03);
+        \* deviation "TruncatedFirstPacketIsError": that case is reported as "only one sync byte detected" once, the end comes with the next call
+        ELSE IF (g = 0 \/ (g < 188 /\ ~HasDev("TruncatedFirstPacketIsError"))) /\ ~HasDev("DetectErrNeverEOF")
+        THEN { [r |-> EOFv, s |-> [st EXCEPT !.done = TRUE, !.pos = st.pos + g]] }
         ELSE { [r |-> ERRv, s |-> [st EXCEPT !.pb = (IF HasDev("DetectErrNeverEOF") THEN "zero" ELSE "nil"), !.pos = st.pos + g]] }
-                                                                                    \* (fewer than S+1 bytes with one sync byte: "only one sync byte")
+                                                                                    \* (one whole packet and no second sync byte: "only one sync byte")
   IN UNION { forG(g) : g \in gs }
 
 \* one NextPacket call
